@@ -511,9 +511,31 @@ def compositions(n):
 
 
 # ---------------------------------------------------------------- (5) create_wrapper
+EARLIER_TUT = """\
+library: Tutorial
+cxx_header: tutorial.hpp
+namespace: tutorial
+declarations:
+- decl: class Class1
+  declarations:
+  - decl: Class1()
+  - decl: int method1(int a)
+- decl: typedef int Index
+- decl: enum Color { RED, BLUE }
+- decl: Index count(Color c)
+"""
+
+
 def create_wrapper_case(args):
-    workdir, text = args
+    """args: (workdir, text[, earlier]) - with 'earlier', another library goes through create_wrapper first in the same interpreter
+    (a setup.py that wraps two libraries): the call for the second one is still the command line for the second one."""
+    workdir, text = args[:2]
+    earlier = args[2] if len(args) > 2 else None
     os.makedirs(os.path.join(workdir, "a", "out"))
+    if earlier:
+        os.makedirs(os.path.join(workdir, "e", "out"))
+        with open(os.path.join(workdir, "e", "lib.yaml"), "w") as fp:
+            fp.write(earlier)
     os.makedirs(os.path.join(workdir, "b"))
     with open(os.path.join(workdir, "a", "lib.yaml"), "w") as fp:
         fp.write(text)
@@ -521,6 +543,9 @@ def create_wrapper_case(args):
     def body():
         import shroud
 
+        if earlier:
+            os.chdir(os.path.join(workdir, "e"))
+            shroud.create_wrapper("lib.yaml", outdir="out", path=["."])
         os.chdir(os.path.join(workdir, "a"))
         cfg = shroud.create_wrapper("lib.yaml", outdir="out", path=["."])
         return sorted(cfg.cfiles) + sorted(cfg.ffiles)
@@ -535,7 +560,7 @@ def create_wrapper_case(args):
     if rb.status != "ok":
         return ("create_wrapper", "bad", "command line failed: %s" % rb.msg)
     if ta != tb:
-        return ("create_wrapper", "bad", "\n".join(isolate.diff_trees(tb, ta, 2)))
+        return ("create_wrapper", "bad", ("after another library in the same interpreter: " if earlier else "") + "\n".join(isolate.diff_trees(tb, ta, 2)))
     if not r.value and any(k.endswith((".c", ".cpp", ".h", ".f")) and not k.startswith(("py", "lua")) for k in ta):
         return ("create_wrapper", "bad", "create_wrapper returned a config without file lists")
     return ("create_wrapper", "ok", len(ta))
@@ -757,7 +782,11 @@ def run(ctx):
     add(("blocks", "nested", True), blk, d)
     ctx.rng.shuffle(jobs)
     res = isolate.pmap(compare_case, jobs, W)
-    res += isolate.pmap(create_wrapper_case, [(os.path.join(wd, "cw%d" % i), t) for i, t in enumerate((BASE, CLI_BASE, BLOCK_BASE, BASE_C, WRAP_BASE, TEMPLATE_BASE, libs.SMALL_C, libs.OTHER_CXX))], W)
+    from . import c07 as _c07
+    cw_targets = (BASE, CLI_BASE, BLOCK_BASE, BASE_C, WRAP_BASE, TEMPLATE_BASE, libs.SMALL_C, libs.OTHER_CXX, _c07.TYPEMAP_LIB)
+    res += isolate.pmap(create_wrapper_case, [(os.path.join(wd, "cw%d" % i), t) for i, t in enumerate(cw_targets)], W)
+    res += isolate.pmap(create_wrapper_case, [(os.path.join(wd, "cwe%d_%d" % (i, j)), t, e) for i, t in enumerate(cw_targets)
+                                              for j, e in enumerate((EARLIER_TUT, libs.SMALL_CXX, libs.SMALL_C))], W)
     parts = {}
     rejected = []
     for label, st, info in res:
